@@ -274,17 +274,17 @@ func c04r2(c *Ctx) {
 				continue
 			}
 			construct := fmt.Sprintf("success return @b%d", r.Block().Index)
-			_, a := e.CutAt(r, flagPred, nil)
-			_, b := e.CutAt(r, scPred, nil)
-			_, c1 := e.CutAt(r, frozenPred, nil)
-			_, c2 := e.CutAt(r, pausedPred, nil)
+			// every path to the success return passes (flag | system account | not frozen) and (flag | system account |
+			// not paused): merged or split guards, in any order, are the same obligation
+			f1, c1 := e.CutAt(r, orPred(flagPred, scPred, frozenPred), nil)
+			f2, c2 := e.CutAt(r, orPred(flagPred, scPred, pausedPred), nil)
 			switch {
-			case a:
-				c.OK(rule, FuncName(g), construct, c.P.InstrPos(r), "only under the return-after-error flag")
-			case b:
-				c.OK(rule, FuncName(g), construct, c.P.InstrPos(r), "only for the system contract's own account")
 			case c1 && c2:
-				c.OK(rule, FuncName(g), construct, c.P.InstrPos(r), "only when the entry is not frozen and IsPaused(key) is false")
+				var by []string
+				for _, f := range append(f1, f2...) {
+					by = append(by, f.Key())
+				}
+				c.OK(rule, FuncName(g), construct, c.P.InstrPos(r), "only under {"+strings.Join(uniq(by), " ; ")+"}")
 			default:
 				d := "the gate can succeed"
 				if !c1 {
@@ -384,17 +384,29 @@ func c04r3(c *Ctx) {
 			}
 		}
 	}
+	// (c2) the account the flag is written into is saved: without SaveAccount the pause never takes effect
+	var toggles []*ssa.Function
+	for _, r := range c.P.Registrations() {
+		if (r.Key == "ESDTPause" || r.Key == "ESDTUnPause") && r.Entry != nil {
+			toggles = append(toggles, r.Entry)
+		}
+	}
+	n0 := len(c.obs)
+	loadedAccountSaved(c, rule, "pause toggle: ", c.P.ReachableFrom(toggles))
+	if len(c.obs) == n0 {
+		c.Anchor(rule, "pause toggle: a loaded account that is written below ESDTPause / ESDTUnPause")
+	}
 	// (d) the factory hands one pause object, built over its own accounts adapter, to every constructor that takes one
 	fac := c.P.FactoryFunc()
 	if fac == nil {
 		c.Anchor(rule, "factory")
 		return
 	}
-	fe := c.P.Env(fac)
+	_ = fac
 	var pauseObj string
 	for _, r := range c.P.Registrations() {
 		if r.Key == "ESDTPause" && r.CtorCall != nil {
-			pauseObj = fe.Term(r.CtorCall) + "#0"
+			pauseObj = r.Env.Term(r.CtorCall) + "#0"
 			if len(r.ArgTerms) == 0 || !strings.HasSuffix(r.ArgTerms[0], ".accounts") {
 				c.FailX(Oblig{Rule: rule, Func: FuncName(fac), Construct: "pause object built over the factory's accounts adapter", Pos: c.P.InstrPos(r.CtorCall), Kind: "violation", Detail: "constructed with " + strings.Join(r.ArgTerms, ", ")})
 			}
